@@ -145,14 +145,34 @@ void *ut_malloc(size_t size) { void *p = malloc(size); __CPROVER_assume(p != NUL
 void ut_free(void *ptr) { if (ptr != NULL) xv_heap_live--; free(ptr); }
 void ut_mem_exhausted(void) { abort(); }
 void ut_fatal(void) { abort(); }
-/* TRUSTED(common/util.c:69-84 over strdup/strndup): exact copy, never fails */
+/* ghost record of credential data handed out (C18 "loaded from data read between two equal hashes"): the results of the
+ * successful loads (ut_load_text_file, ut_strdup) made since the last EVP_DigestFinal_ex; at each EVP_DigestFinal_ex the
+ * record moves to xv_ldb_* ("between the last two digests") and starts again */
+long xv_ld_since_md; const char *xv_ld_res[4];
+long xv_ld_between; const char *xv_ldb_res[4];
+static inline void xv_ld_record(const char *p) { if (xv_ld_since_md >= 0 && xv_ld_since_md < 4) xv_ld_res[xv_ld_since_md] = p; xv_ld_since_md++; }
+/* heap strings of this unit are short (bound XV_STR_MAX of the unit, an obligation in the stubs): a block of EXACTLY len+1
+ * bytes is allocated by case distinction, so that every object has a constant size (objects of symbolic size made the
+ * formula of ctx_store_get_ctx 136M clauses) */
+#define XV_STR_MAX 4
+static char *xv_str_alloc(size_t n)
+{
+    char *p = n == 0 ? malloc(1) : n == 1 ? malloc(2) : n == 2 ? malloc(3) : malloc(4);
+    __CPROVER_assume(p != NULL);
+    return p;
+}
+/* TRUSTED(common/util.c:69-84 over strdup): exact copy in a block of strlen+1 bytes, never fails */
 char *ut_strdup(const char *str)
 {
     size_t n = strlen(str);
-    char *p = malloc(n + 1);
-    __CPROVER_assume(p != NULL);
+    __CPROVER_assert(n < XV_STR_MAX, "bound of the unit: strings duplicated are shorter than XV_STR_MAX");
+    __CPROVER_assume(n < XV_STR_MAX);
+    char *p = xv_str_alloc(n);
     xv_heap_live++;
-    memcpy(p, str, n + 1);
+    p[0] = str[0];
+    if (n >= 1) p[1] = str[1];
+    if (n >= 2) p[2] = str[2];
+    if (n >= 3) p[3] = str[3];
     xv_ld_record(p);
     return p;
 }
@@ -162,6 +182,21 @@ char *ut_strdup(const char *str)
  * NUL-terminated string of arbitrary content inside the buffer they are given; the text is not modelled.
  * snprintf goes through prelude.h's macro to xv_snprintf (env/libc_fmt.h); ut_aprintf is variadic, the unit header
  * routes it to xv_aprintf(buf, capacity) the same way. */
+/* TRUSTED(libc) snprintf, reached through prelude.h's macro: own model instead of env/libc_fmt.h, whose havoc of a slice of
+ * SYMBOLIC length made the formula of ctx_store_get_ctx explode (the 1 KiB log buffers): here the whole buffer (constant
+ * size at every call site) becomes arbitrary and is NUL-terminated where the formatted text would end */
+int xv_snprintf_ret; size_t xv_snprintf_cap; int xv_snprintf_calls;
+int xv_snprintf(char *s, size_t size)
+{
+    int r = nondet_int();
+    __CPROVER_assume(r >= 0 && r <= 4096);
+    xv_snprintf_ret = r; xv_snprintf_cap = size; xv_snprintf_calls++;
+    if (size > 0) {
+        __CPROVER_havoc_slice(s, size);
+        s[(size_t)r < size ? (size_t)r : size - 1] = '\0';
+    }
+    return r;
+}
 void hash_description(uint8_t *hash, size_t hash_len, char *buf)
 {
     __CPROVER_assert(hash_len >= 1 && __CPROVER_r_ok(hash, hash_len), "hash_description: hash readable");
@@ -184,14 +219,8 @@ void xv_aprintf(char *buf, size_t capacity)
 /* ---- TRUSTED(common/util.c:337-390 load_file/ut_load_text_file over fopen/fread/ferror/fclose): the whole file as a
  * NUL-terminated heap string, or -1 with the errno fopen(3)/fread(3) left; on fopen failure *data is NOT written, on a
  * read error it is NULL.  Files longer than XV_FILE_MAX are not explored. */
-#define XV_FILE_MAX 64
+#define XV_FILE_MAX (XV_STR_MAX - 1)
 long xv_ld_calls;        /* ghost: number of ut_load_text_file calls */
-/* ghost record of credential data handed out (C18 "loaded from data read between two equal hashes"): the results of the
- * successful loads (ut_load_text_file, ut_strdup) made since the last EVP_DigestFinal_ex; at each EVP_DigestFinal_ex the
- * record moves to xv_ldb_* ("between the last two digests") and starts again */
-long xv_ld_since_md; const char *xv_ld_res[4];
-long xv_ld_between; const char *xv_ldb_res[4];
-static inline void xv_ld_record(const char *p) { if (xv_ld_since_md >= 0 && xv_ld_since_md < 4) xv_ld_res[xv_ld_since_md] = p; xv_ld_since_md++; }
 ssize_t ut_load_text_file(const char *filename, char **data)
 {
     __CPROVER_assert(__CPROVER_r_ok(filename, 1), "ut_load_text_file: filename readable");
@@ -207,8 +236,7 @@ ssize_t ut_load_text_file(const char *filename, char **data)
     }
     size_t n = nondet_size_t();
     __CPROVER_assume(n <= XV_FILE_MAX);
-    char *p = malloc(n + 1);
-    __CPROVER_assume(p != NULL);
+    char *p = xv_str_alloc(n);
     xv_heap_live++;
     p[n] = '\0';
     *data = p;
